@@ -1,6 +1,7 @@
 package rules
 
 import (
+	"go/constant"
 	"fmt"
 	"go/token"
 	"go/types"
@@ -265,6 +266,32 @@ func c11Roots(c *Ctx) {
 		}
 	}
 	c.R.Cond(ok && n > 0, rule, name+": returns the map keys", c.P.Pos(fn.Pos()), "every appended element is a key of DB.mergedRoots", "Roots() returns something other than the keys of DB.mergedRoots")
+	// mergedRoots changes only at Commit: while the handle holds uncommitted values the list names the
+	// version the transaction started from, not the rows a SELECT shows
+	roF := mustField(c, "kv", "DB", "readonly")
+	if roF == nil {
+		return
+	}
+	h := an.THooks{Branch: func(iff *ssa.If, side bool, st an.TState) an.TState {
+		cond, neg := an.StripNot(iff.Cond)
+		if cl, isCall := cond.(*ssa.Call); isCall && calleeLabel(cl) == "IsDirty" && side == neg {
+			return ansState(true) // IsDirty() is false here
+		}
+		if an.FieldOfLoad(cond) == roF && side != neg {
+			return ansState(true) // a read-only handle never holds values of its own
+		}
+		return st
+	}}
+	exits := an.WalkTypestate(fn, ansState(false), h, c.Scope(fn))
+	good := len(exits) > 0
+	why := ""
+	for _, ex := range exits {
+		if ex.ErrNil != 0 && !bool(ex.St.(ansState)) {
+			good = false
+			why = "Roots() can answer at " + c.P.Pos(ex.Ret.Pos()) + " for a writable handle that was not found clean: inside a transaction that has written, s3db_version() then names the version the transaction started from while SELECT on the same connection shows the uncommitted rows — re-opening that version shows other rows than were visible"
+		}
+	}
+	c.R.Cond(good, rule, name+": answers only for a handle without uncommitted values", c.P.Pos(fn.Pos()), "every successful return lies behind !IsDirty() or readonly", why)
 }
 
 // ---- C11.empty-version: the empty version list is a version, "absent" is nil -------------------
@@ -427,4 +454,92 @@ func c11CreatedStamp(c *Ctx) {
 		good, why = false, "no successful return found"
 	}
 	c.R.Cond(good, rule, name+": stamps the tree", c.P.Pos(fn.Pos()), "every successful return follows 'Created = when' (or a new empty root built from when)", why)
+}
+
+
+// ---- C11.continues-merged: "this handle continues one version" is decided by what was merged -----------
+
+func init() {
+	register(&Rule{Name: "C11.continues-merged", Min: 1, Run: c11ContinuesMerged,
+		Doc: "mergeRoots sets the tree's Source (the version it continues unchanged) from the merged set, under the test that exactly one version was merged — not from what was listed"})
+	byProp["C11"] = append(byProp["C11"], "C11.continues-merged")
+	explain["C11"] += " continues-merged: 's3db_version() is left unchanged by refreshes that change nothing' — Commit returns early only for a clean tree with a Source; mergeRoots sets Source iff exactly one version was merged. Listed and merged differ when a listed version was set aside as unreadable (a peer's version whose nodes are not there yet): deciding by the listing leaves Source nil although one version was merged, and every writable open or refresh then commits a new, identical version and retires the previous one. The map that mergeRoots returns as the merged set is the operand of the len(...) == 1 test that guards the store, and the stored name is taken from it."
+}
+
+func c11ContinuesMerged(c *Ctx) {
+	const rule = "C11.continues-merged"
+	fn := mustFunc(c, "kv", "", "mergeRoots")
+	srcF := mustField(c, "kv/internal/crdt", "Tree", "Source")
+	if fn == nil || srcF == nil {
+		return
+	}
+	name := core.FuncName(fn)
+	// the merged set: the map returned as a result
+	var merged ssa.Value
+	for _, b := range fn.Blocks {
+		if ret, ok := b.Instrs[len(b.Instrs)-1].(*ssa.Return); ok {
+			for _, r := range ret.Results {
+				if _, isMap := r.Type().Underlying().(*types.Map); isMap {
+					if mm, isMk := an.Unwrap(r).(*ssa.MakeMap); isMk {
+						merged = mm
+					}
+				}
+			}
+		}
+	}
+	if merged == nil {
+		c.R.Unk(rule, name+": shape", c.P.Pos(fn.Pos()), "mergeRoots does not return a map made in the function")
+		return
+	}
+	n := 0
+	for _, st := range an.StoresToField(fn, srcF) {
+		if an.IsNilConst(st.Val) {
+			continue
+		}
+		n++
+		fromMerged := an.DependsOn(st.Val, func(v ssa.Value) bool { return v == merged })
+		guarded := false
+		for _, b := range fn.Blocks {
+			iff, ok := b.Instrs[len(b.Instrs)-1].(*ssa.If)
+			if !ok {
+				continue
+			}
+			bo, ok := iff.Cond.(*ssa.BinOp)
+			if !ok || bo.Op != token.EQL {
+				continue
+			}
+			for _, pair := range [][2]ssa.Value{{bo.X, bo.Y}, {bo.Y, bo.X}} {
+				cl, isCall := pair[0].(*ssa.Call)
+				k, isK := constInt(pair[1])
+				if !isCall || !isK || k != 1 {
+					continue
+				}
+				if bi, isB := cl.Call.Value.(*ssa.Builtin); isB && bi.Name() == "len" && an.Unwrap(cl.Call.Args[0]) == merged {
+					if an.OnlyVia(b, 0, st.Block()) {
+						guarded = true
+					}
+				}
+			}
+		}
+		why := ""
+		switch {
+		case !guarded:
+			why = "the store is not guarded by len(<merged set>) == 1: when a listed version was set aside as unreadable, 'one version listed' and 'one version merged' differ — Source stays nil (or names a version that was not merged), the commit every writable open runs no longer returns early, and each refresh that changes nothing publishes a new version"
+		case !fromMerged:
+			why = "the name stored as Source is not taken from the merged set"
+		}
+		c.R.Cond(guarded && fromMerged, rule, fmt.Sprintf("%s: Source #%d", name, n), c.P.Pos(st.Pos()), "Source = the single merged version, under len(merged) == 1", why)
+	}
+	if n == 0 {
+		c.R.Unk(rule, name+": Source", c.P.Pos(fn.Pos()), "mergeRoots never sets Source")
+	}
+}
+
+// constInt reads an integer constant.
+func constInt(v ssa.Value) (int64, bool) {
+	k, ok := v.(*ssa.Const)
+	if !ok || k.Value == nil || k.Value.Kind() != constant.Int {
+		return 0, false
+	}
+	return k.Int64(), true
 }
